@@ -23,6 +23,7 @@ MONITORED = [
     'profile builders (step, linear, single, bounded, function, data) produce the documented initial profile (independent Python reference; the built profile is an input of the Lean model)',
     'lattice-frame homogenization fluxes recomputed from the logged average mobilities / chemical potentials (independent Python reference) reproduce the implementation volume-frame fluxes',
     'budget after postProcess on steps where the clip is active is not claimed (counted as clip-active-steps)',
+    'bounds of the DEPENDENT component after a step (postProcess clips the independent components only): violation on real thermodynamics (thorough tier), observation count on the stub diffusivities, whose fluxes are not consistent as the reference element runs out; at t = 0 it is proved (setup_dependent_bounds) and a hard oracle',
 ]
 ASSUMPTIONS = [
     'finite compositions, fluxes and temperatures (NaN/inf outside the statement)',
@@ -56,8 +57,45 @@ def _val(rng, vmax):
     return round(rng.uniform(0.02, vmax), 6)
 
 
-def gen_profile(rng, E, z0, L, kind):
+LOW_REGIMES = ['zero', 'below-min', 'at-min', 'window-low', 'window-mid', 'window-n', 'window-high', 'at-window-end',
+               'just-above-window', 'above-window', 'far-above']
+HIGH_REGIMES = ['one', 'half-min-below-one', 'at-max', 'window-below-max', 'below-max']
+
+
+def regime_value(reg, minC, nAll, rng=None):
+    """a described composition in a regime relative to minComposition (nAll = len(allElements))"""
+    u = rng.random() if rng is not None else 0.5
+    return {'zero': 0.0, 'below-min': (0.1 + 0.8 * u) * minC, 'at-min': minC, 'window-low': (1 + 1e-6 + 0.5 * u) * minC,
+            'window-mid': (1.5 + u) * minC, 'window-n': nAll * minC, 'window-high': (nAll + 0.2 + 0.7 * u) * minC,
+            'at-window-end': (nAll + 1) * minC, 'just-above-window': (nAll + 1) * minC * (1 + 1e-3 * (0.1 + u)),
+            'above-window': (nAll + 1.5 + 3 * u) * minC, 'far-above': (10 + 40 * u) * nAll * minC,
+            'one': 1.0, 'half-min-below-one': 1 - 0.5 * minC, 'at-max': 1 - minC, 'window-below-max': 1 - (1 + nAll * u) * minC,
+            'below-max': 1 - (nAll + 1 + 3 * u) * minC}[reg]
+
+
+def classify_value(v, minC, nAll):
+    """regime of a described value (for violation keys)"""
+    if v == 0: return 'zero'
+    if v < minC: return 'below-min'
+    if v == minC: return 'at-min'
+    if v < (nAll + 1) * minC: return 'in-window(min,(n+1)min)'
+    if v == (nAll + 1) * minC: return 'at-window-end'
+    if v > 1 - minC: return 'above-1-min'
+    if v >= 1 - (nAll + 1) * minC: return 'near-1-min'
+    return 'above-window'
+
+
+def _tval(rng, minC, nAll, vmax, cap=None):
+    if rng.random() < 0.75:
+        v = regime_value(rng.choice(LOW_REGIMES), minC, nAll, rng)
+    else:
+        v = _val(rng, vmax)
+    return v if cap is None or v <= cap else 0.0
+
+
+def gen_profile(rng, E, z0, L, kind, minC=1e-8):
     vmax = 0.9 / E
+    nAll = E + 1
     prof = []
     if kind == 'extreme':
         zm = z0 + L * rng.uniform(0.3, 0.7)
@@ -73,29 +111,57 @@ def gen_profile(rng, E, z0, L, kind):
         for e in range(E):
             prof.append([['linear', 0.5, 1.2]] if E == 1 else [['linear', 0.6, 0.55]])
         return prof
+    if kind == 'trace-high':
+        # one element close to 1 / 1-min on part of the mesh, the others in the low regimes that still fit under a node sum of 1
+        hi = regime_value(rng.choice(HIGH_REGIMES), minC, nAll, rng)
+        room = max(0.0, 1.0 - hi) / max(1, E - 1)
+        big = rng.randrange(E)
+        for e in range(E):
+            if e == big:
+                lowv = _tval(rng, minC, nAll, 0.3)
+                k = rng.choice(['step', 'linear', 'bounded', 'data'])
+                if k == 'step':
+                    st = [['step', hi, lowv, z0 + L * rng.uniform(0.2, 0.8)]] if rng.random() < 0.5 else [['step', lowv, hi, z0 + L * rng.uniform(0.2, 0.8)]]
+                elif k == 'linear':
+                    st = [['linear', hi, lowv]] if rng.random() < 0.5 else [['linear', lowv, hi]]
+                elif k == 'bounded':
+                    a = z0 + L * rng.uniform(0.0, 0.6)
+                    st = [['linear', lowv, lowv], ['bounded', hi, a, a + L * rng.uniform(0.1, 0.4)]]
+                else:
+                    st = [['data', [hi, hi, lowv, lowv], [z0, z0 + 0.3 * L, z0 + 0.6 * L, z0 + L]]]
+                prof.append(st)
+            else:
+                v = _tval(rng, minC, nAll, 0.0, cap=room)
+                prof.append([['linear', v if v <= room else 0.0, v if v <= room else 0.0]])
+        return prof
+    tv = (lambda: _tval(rng, minC, nAll, vmax)) if kind == 'trace' else (lambda: _val(rng, vmax))
     for e in range(E):
         k = rng.choice(['step', 'step', 'linear', 'linear', 'bounded', 'single', 'function', 'data'])
         if k == 'step':
-            steps = [['step', _val(rng, vmax), _val(rng, vmax), z0 + L * rng.uniform(-0.1, 1.1)]]
+            steps = [['step', tv(), tv(), z0 + L * rng.uniform(-0.1, 1.1)]]
         elif k == 'linear':
-            steps = [['linear', _val(rng, vmax), _val(rng, vmax)]]
+            steps = [['linear', tv(), tv()]]
         elif k == 'bounded':
             a = z0 + L * rng.uniform(-0.1, 0.8)
-            steps = [['linear', _val(rng, vmax), _val(rng, vmax)], ['bounded', _val(rng, vmax), a, a + L * rng.uniform(0.0, 0.6)]]
+            steps = [['linear', tv(), tv()], ['bounded', tv(), a, a + L * rng.uniform(0.0, 0.6)]]
         elif k == 'single':
-            steps = [['step', _val(rng, vmax), _val(rng, vmax), z0 + L * rng.uniform(0, 1)], ['single', _val(rng, vmax), z0 + L * rng.uniform(-0.2, 1.2)]]
+            steps = [['step', tv(), tv(), z0 + L * rng.uniform(0, 1)], ['single', tv(), z0 + L * rng.uniform(-0.2, 1.2)]]
         elif k == 'function':
-            mid = rng.uniform(0.1, 0.7) * vmax + 0.02
-            steps = [['function', mid, rng.uniform(0.1, 0.9) * min(mid - 0.01, vmax - mid), rng.uniform(0.5, 6.0), z0, L]]
+            if kind == 'trace':
+                mid = tv()
+                steps = [['function', mid, rng.uniform(0.0, 0.9) * mid, rng.uniform(0.5, 6.0), z0, L]]
+            else:
+                mid = rng.uniform(0.1, 0.7) * vmax + 0.02
+                steps = [['function', mid, rng.uniform(0.1, 0.9) * min(mid - 0.01, vmax - mid), rng.uniform(0.5, 6.0), z0, L]]
         else:
             n = rng.randint(2, 6)
             zs = sorted(z0 + L * rng.uniform(-0.2, 1.2) for _ in range(n))
-            steps = [['data', [_val(rng, vmax) for _ in range(n)], zs]]
+            steps = [['data', [tv() for _ in range(n)], zs]]
         prof.append(steps)
     return prof
 
 
-def gen_bc(rng, E):
+def gen_bc(rng, E, minC=None):
     vmax = 0.9 / E
     bcs = []
     for e in range(E):
@@ -105,11 +171,129 @@ def gen_bc(rng, E):
             if k == 'flux':
                 sides.append(['flux', rng.choice([-1, 1]) * 10 ** rng.uniform(-1.3, 0.7)])   # relative to the case's flux scale
             elif k == 'comp':
-                sides.append(['comp', _val(rng, vmax)])
+                sides.append(['comp', _tval(rng, minC, E + 1, vmax) if minC is not None else _val(rng, vmax)])
             else:
                 sides.append([k, 0.0])
         bcs.append(sides)
     return bcs
+
+
+# ---- entering boundary conditions: every public entry point
+# op = [entry, side, side_repr, kind, value, type_repr, element_index]          entry in set / setLeft / setRight
+#      ['setBC', lkind, lvalue, rkind, rvalue, type_repr, element_index]         DiffusionModel.setBC(…, element=name)
+#      ['setBC-none', lkind, lvalue, rkind, rvalue, type_repr, 0]                DiffusionModel.setBC(…) without element
+# side L / R / bad; side_repr const / str; kind flux / flux0 / comp / badtype; type_repr int / str;
+# element_index e < E: the e-th independent element, E: a name that is not an element of the model
+FOREIGN = 'ZZ'
+
+
+def _rand_side_op(rng, e, side, E, kinds=('flux', 'flux0', 'comp')):
+    k = rng.choice(kinds)
+    v = rng.choice([-1, 1]) * 10 ** rng.uniform(-1.3, 0.7) if k == 'flux' else (_val(rng, 0.9 / E) if k == 'comp' else 0.0)
+    ep = rng.choice(['set', 'set', 'helper', 'helper'])
+    if ep == 'helper':
+        return [['setLeft', 'setRight'][side], 'LR'[side], 'const', k, v, rng.choice(['int', 'str']), e]
+    return ['set', 'LR'[side], rng.choice(['const', 'str']), k, v, rng.choice(['int', 'str']), e]
+
+
+def gen_bcops(rng, bc, E, noise_p=0.3, malformed=False, none_key=False):
+    """a history of entering calls whose last writes per (element, side) are `bc`"""
+    noise, final = [], []
+    for e, sides in enumerate(bc):
+        touched = [k != 'default' for k, _ in sides]
+        for side in range(2):
+            if touched[side]:
+                while rng.random() < noise_p:
+                    noise.append(_rand_side_op(rng, e, side, E))
+        if touched[0] and touched[1] and rng.random() < noise_p:
+            noise.append(['setBC', rng.choice(['flux', 'comp']), _val(rng, 0.9 / E), rng.choice(['flux', 'comp']), _val(rng, 0.9 / E), rng.choice(['int', 'str']), e])
+        use_setbc = (touched[0] and touched[1] and rng.random() < 0.4) or ((touched[0] != touched[1]) and rng.random() < 0.15)
+        if use_setbc:
+            l, r = [sd if sd[0] != 'default' else ['flux0', 0.0] for sd in sides]
+            ep = 'setBC-none' if (none_key and e == 0 and rng.random() < 0.5) else 'setBC'
+            final.append([ep, l[0], l[1], r[0], r[1], rng.choice(['int', 'str']), e])
+        else:
+            for side in range(2):
+                if touched[side]:
+                    op = _rand_side_op(rng, e, side, E, kinds=(sides[side][0],))
+                    op[4] = sides[side][1]
+                    final.append(op)
+    if rng.random() < 0.25:
+        noise.append(_rand_side_op(rng, E, rng.randrange(2), E))            # a name that is not an element of the model
+    if malformed:
+        for _ in range(rng.randint(1, 2)):
+            e = rng.randrange(E); side = rng.randrange(2)
+            m = rng.choice(['badside', 'badtype', 'setBC-badright', 'setBC-badleft', 'helper-badtype'])
+            if m == 'badside':
+                noise.append(['set', 'bad', rng.choice(['const', 'str']), rng.choice(['flux', 'comp']), 0.1, rng.choice(['int', 'str']), e])
+            elif m == 'badtype':
+                noise.append(['set', 'LR'[side], rng.choice(['const', 'str']), 'badtype', 0.1, 'str', e])
+            elif m == 'helper-badtype':
+                noise.append([['setLeft', 'setRight'][side], 'LR'[side], 'const', 'badtype', 0.1, 'str', e])
+            elif m == 'setBC-badright':
+                # writes the LEFT entry, then raises: only where a later call decides the left side of e
+                if bc[e][0][0] != 'default':
+                    noise.append(['setBC', 'comp', 0.2, 'badtype', 0.1, 'str', e])
+            else:
+                noise.append(['setBC', 'badtype', 0.2, 'comp', 0.1, 'str', e])
+    rng.shuffle(noise); rng.shuffle(final)
+    return noise + final
+
+
+def ref_bc_tables(ops, E):
+    """SPECIFICATION of the entering calls, plain Python: per key (element index, E = foreign name) and side the (type, value)
+    of the last valid call that names it; invalid side / type string raise ValueError and write nothing (setBC: the left
+    entry is written before the right one is validated); setBC without element means the first independent element.
+    Returns the list of (tables, raised) after every call; tables = {(key, side): (kind, value)}."""
+    cur, out = {}, []
+    for op in ops:
+        raised = False
+        if op[0] in ('setBC', 'setBC-none'):
+            _, lk, lv, rk, rv, _, e = op
+            if lk == 'badtype':
+                raised = True
+            else:
+                cur[(e, 0)] = (lk, lv)
+                if rk == 'badtype':
+                    raised = True
+                else:
+                    cur[(e, 1)] = (rk, rv)
+        else:
+            ep, sd, _, k, v, _, e = op
+            if k == 'badtype' or sd == 'bad':
+                raised = True
+            else:
+                cur[(e, 'LR'.index(sd))] = (k, v)
+        out.append((dict(cur), raised))
+    return out
+
+
+def spec_from_tables(tab, E, fs):
+    """[ltype, lval, rtype, rval] per element (0 = flux, 1 = composition), defaults flux 0"""
+    spec = []
+    for e in range(E):
+        row = []
+        for side in range(2):
+            k, v = tab.get((e, side), ('flux0', 0.0))
+            row += [1 if k == 'comp' else 0, float(v * fs if k == 'flux' else (v if k == 'comp' else 0.0))]
+        spec.append(row)
+    return spec
+
+
+def legacy_bcops(case):
+    """cases stored before the entering calls were part of the case (bcapi = setBC / object / object-str)"""
+    ops = []
+    for e, sides in enumerate(case['bc']):
+        if case.get('bcapi', 'setBC') == 'setBC':
+            if sides[0][0] != 'default' or sides[1][0] != 'default':
+                l, r = [sd if sd[0] != 'default' else ['flux0', 0.0] for sd in sides]
+                ops.append(['setBC', l[0], l[1], r[0], r[1], 'int', e])
+        else:
+            for side, (k, v) in enumerate(sides):
+                if k != 'default':
+                    rp = 'str' if case['bcapi'] == 'object-str' else 'const'
+                    ops.append(['set', 'LR'[side], rp, k, v, 'str' if rp == 'str' else 'int', e])
+    return ops
 
 
 def gen_case(rng, thorough=False):
@@ -123,7 +307,9 @@ def gen_case(rng, thorough=False):
         names[rng.randint(1, ncomp - 1)] = rng.choice(INTER)
     L = 10 ** rng.uniform(-5, -2)
     z0 = rng.choice([0.0, -L / 2, rng.uniform(-1, 1) * L])
-    pk = rng.choice(['normal'] * 17 + ['extreme'] * 2 + ['sum>1'])
+    pk = rng.choice(['normal'] * 12 + ['trace'] * 6 + ['trace-high'] * 2 + ['extreme'] * 2 + ['sum>1'])
+    minC = rng.choice([1e-8] * 6 + [1e-6, 1e-4, 1e-10, 1e-3, 1e-3, 1e-5])
+    bc = gen_bc(rng, E, minC if pk == 'trace' and rng.random() < 0.5 else None) if pk not in ('extreme', 'trace-high') else [[[rng.choice(['default', 'flux0']), 0.0] for _ in range(2)] for _ in range(E)]
     ncalls = rng.randint(1, 5)
     smax = 3 if N > 80 else 8
     ops = []
@@ -135,9 +321,9 @@ def gen_case(rng, thorough=False):
     T0 = round(rng.uniform(900, 1500), 2)
     case = dict(
         model=model, names=names, N=N, z0=z0, L=L,
-        minC=rng.choice([1e-8] * 5 + [1e-6, 1e-4, 1e-10]),
-        profile=gen_profile(rng, E, z0, L, pk), pkind=pk,
-        bc=gen_bc(rng, E) if pk != 'extreme' else [[[rng.choice(['default', 'flux0']), 0.0] for _ in range(2)] for _ in range(E)], bcapi=rng.choice(['setBC', 'object', 'object-str']),
+        minC=minC,
+        profile=gen_profile(rng, E, z0, L, pk, minC), pkind=pk,
+        bc=bc, bcops=gen_bcops(rng, bc, E), ctor=rng.random() < 0.4,
         scheme=rng.choice(['euler', 'rk4']), ops=ops,
         temp=[tk, T0, round(rng.uniform(-80, 80), 2), 10 ** rng.uniform(-4, -1) * rng.choice([-1, 1])],
         therm=rng.choice(['const', 'linear', 'table', 'arrhenius']), tseed=rng.getrandbits(32),
@@ -307,6 +493,8 @@ def build(case):
                 cp.addFunctionCompositionStep(el, _profile_fn(st))
             else:
                 cp.addProfileCompositionStep(el, st[1], st[2])
+    fs = _flux_scale(case, mesh_dz(case))
+    bc0, pending = enter_first(case, names, fs)
     tk, T0, grad, rate = case['temp']
     if tk == 'iso':
         tp = TemperatureParameters(T0)
@@ -318,7 +506,7 @@ def build(case):
     if case['model'] == 'single':
         therm = SingleStub(case['therm'], E, case['tseed'], case['scale'])
         m = SinglePhaseModel(zlim, N, names, ['ALPHA'], thermodynamics=therm, temperatureParameters=tp,
-                             compositionProfile=cp, record=case['record'])
+                             compositionProfile=cp, record=case['record'], boundaryConditions=bc0)
     else:
         therm = HomStub(case['therm'], names, case['tseed'], case['scale'], case['nphases'], case['mobless'] and case['nphases'] == 2)
         hf = case['hfunc']
@@ -326,32 +514,86 @@ def build(case):
             hf = 'wiener upper'
         hp = HomogenizationParameters(hf, eps=case['heps'], postProcessFunction=case['hpost'])
         m = HomogenizationModel(zlim, N, names, therm.phases, thermodynamics=therm, temperatureParameters=tp,
-                                compositionProfile=cp, homogenizationParameters=hp, record=case['record'])
+                                compositionProfile=cp, homogenizationParameters=hp, record=case['record'], boundaryConditions=bc0)
     m.constraints.minComposition = case['minC']
-    fs = _flux_scale(case, float(m.dz))
-    spec = []           # per element [ltype, lval, rtype, rval] with 0=flux 1=comp
-    for e, sides in enumerate(case['bc']):
-        el = names[e + 1]
-        row = []
-        for side, (k, v) in enumerate(sides):
-            typ = 1 if k == 'comp' else 0
-            val = v * fs if k == 'flux' else (v if k == 'comp' else 0.0)
-            row += [typ, float(val)]
-        spec.append(row)
-        if case['bcapi'] == 'setBC':
-            if sides[0][0] != 'default' or sides[1][0] != 'default':
-                m.setBC(row[0], row[1], row[2], row[3], element=el)
-        else:
-            for side, (k, v) in enumerate(sides):
-                if k == 'default':
-                    continue
-                t = row[2 * side]
-                if case['bcapi'] == 'object-str':
-                    m.boundaryConditions.setBoundaryCondition(['left', 'right'][side], ['flux', 'composition'][t], row[2 * side + 1], el)
-                else:
-                    m.boundaryConditions.setBoundaryCondition([BoundaryConditions.LEFT, BoundaryConditions.RIGHT][side],
-                                                              [BoundaryConditions.FLUX_BC, BoundaryConditions.COMPOSITION_BC][t], row[2 * side + 1], el)
+    entry = enter_rest(pending, m, m.boundaryConditions)
+    spec = spec_from_tables(ref_bc_tables(bcops_of(case), E)[-1][0] if bcops_of(case) else {}, E, fs)
+    m._verif_entry = entry
     return m, spec, therm
+
+
+def bcops_of(case):
+    return case['bcops'] if 'bcops' in case else legacy_bcops(case)
+
+
+def mesh_dz(case):
+    z = np.linspace(case['z0'], case['z0'] + case['L'], case['N'])
+    return float(z[1] - z[0])
+
+
+def _key_name(names, e):
+    return names[e + 1] if e + 1 < len(names) else FOREIGN
+
+
+def snapshot(bc):
+    return dict(leftBCtype=dict(bc.leftBCtype), leftBC=dict(bc.leftBC), rightBCtype=dict(bc.rightBCtype), rightBC=dict(bc.rightBC))
+
+
+def do_entry(op, bc, m, names, fs):
+    """one entering call on the real objects; returns True when it raised ValueError"""
+    from kawin.diffusion.DiffusionParameters import BoundaryConditions as B
+    def ty(kind, repr_):
+        if kind == 'badtype':
+            return 'neumann'
+        t = 1 if kind == 'comp' else 0
+        return ['flux', 'composition'][t] if repr_ == 'str' else [B.FLUX_BC, B.COMPOSITION_BC][t]
+    def val(kind, v):
+        return float(v * fs) if kind == 'flux' else (float(v) if kind in ('comp', 'badtype') else 0.0)
+    try:
+        if op[0] in ('setBC', 'setBC-none'):
+            _, lk, lv, rk, rv, tr, e = op
+            if op[0] == 'setBC':
+                m.setBC(ty(lk, tr), val(lk, lv), ty(rk, tr), val(rk, rv), element=_key_name(names, e))
+            else:
+                m.setBC(ty(lk, tr), val(lk, lv), ty(rk, tr), val(rk, rv))
+        else:
+            ep, sd, sr, k, v, tr, e = op
+            el = _key_name(names, e)
+            if ep == 'setLeft':
+                bc.setLeftBoundaryCondition(ty(k, tr), val(k, v), el)
+            elif ep == 'setRight':
+                bc.setRightBoundaryCondition(ty(k, tr), val(k, v), el)
+            else:
+                side = ('top' if sr == 'str' else 7) if sd == 'bad' else (['left', 'right'] if sr == 'str' else [B.LEFT, B.RIGHT])['LR'.index(sd)]
+                bc.setBoundaryCondition(side, ty(k, tr), val(k, v), el)
+    except ValueError:
+        return True
+    return False
+
+
+def enter_first(case, names, fs):
+    """constructor path: a BoundaryConditions object filled by the calls that do not need the model (those before the first
+    setBC call), to be passed as `boundaryConditions=`; returns (object or None, state for enter_rest)"""
+    from kawin.diffusion.DiffusionParameters import BoundaryConditions
+    ops = bcops_of(case)
+    st = dict(ops=ops, done=0, raised=[], snaps=[], names=names, fs=fs)
+    if not case.get('ctor', False):
+        return None, st
+    bc = BoundaryConditions()
+    while st['done'] < len(ops) and ops[st['done']][0] not in ('setBC', 'setBC-none'):
+        st['raised'].append(do_entry(ops[st['done']], bc, None, names, fs))
+        st['snaps'].append(snapshot(bc))
+        st['done'] += 1
+    return bc, st
+
+
+def enter_rest(st, m, bc):
+    ops = st['ops']
+    while st['done'] < len(ops):
+        st['raised'].append(do_entry(ops[st['done']], bc, m, st['names'], st['fs']))
+        st['snaps'].append(snapshot(bc))
+        st['done'] += 1
+    return dict(raised=st['raised'], snaps=st['snaps'])
 
 
 # ============================================================================ logged run of the real code
@@ -379,7 +621,7 @@ def run_real(case, factory=None):
     m, spec, therm = build(case)
     E, N = len(case['names']) - 1, case['N']
     log = dict(raw=[], after=[], dxdt=[], hom=[], steps=[], ops=[], built=None, spec=spec, dz=float(m.dz), z=m.z.copy(),
-               nAll=len(m.allElements), dt0=dt0, E=E, N=N)
+               nAll=len(m.allElements), dt0=dt0, E=E, N=N, entry=getattr(m, '_verif_entry', None), tables_setup=None, rec0=None)
     bc = m.boundaryConditions
     o_apply = bc.applyBoundaryConditionsToFluxes
 
@@ -419,6 +661,11 @@ def run_real(case, factory=None):
         cur['was_setup'] = bool(m.isSetup)
         o_setup()
         cur['x_setup'] = m.x.copy()
+        if not cur['was_setup']:
+            log['tables_setup'] = snapshot(m.boundaryConditions)
+            rx = getattr(m, '_recordedX', None)
+            if getattr(m, '_record', False) and rx is not None and len(rx) >= 1:
+                log['rec0'] = np.array(rx[0], dtype=float, copy=True)
     m.setup = w_setup
 
     def wrap_it(real):
@@ -561,6 +808,101 @@ def _bweights(n):
     return [1.0] if n == 1 else [1 / 6, 2 / 6, 2 / 6, 1 / 6]
 
 
+ENTRY_NAME = {'set': 'setBoundaryCondition', 'setLeft': 'setLeftBoundaryCondition', 'setRight': 'setRightBoundaryCondition',
+              'setBC': 'DiffusionModel.setBC', 'setBC-none': 'DiffusionModel.setBC(element=None)'}
+
+
+def _norm_snapshot(snap, names):
+    """{(key index, side): (type, value)} of a snapshot of the four dictionaries; None when a type/value pair of dictionaries
+    does not hold the same keys"""
+    idx = {n: k for k, n in enumerate(names[1:])}
+    idx[FOREIGN] = len(names) - 1
+    idx[None] = -1
+    out = {}
+    for side, (tn, vn) in enumerate([('leftBCtype', 'leftBC'), ('rightBCtype', 'rightBC')]):
+        if set(snap[tn]) != set(snap[vn]):
+            return None
+        for k in snap[tn]:
+            if k not in idx:
+                return None
+            out[(idx[k], side)] = (snap[tn][k], float(snap[vn][k]))
+    return out
+
+
+def _ref_entries(tab, fs):
+    return {k: (1 if kind == 'comp' else 0, float(v * fs if kind == 'flux' else (v if kind == 'comp' else 0.0))) for k, (kind, v) in tab.items()}
+
+
+def entry_oracle(res, case, entry, E, fs, tables_setup=None):
+    """stored per-side / per-element tables = SPECIFICATION after every entering call (culprit = the first call after which
+    they differ) and after setupDefaults.  Returns True when a table violation was reported."""
+    ops = bcops_of(case)
+    names = case['names']
+    ref = ref_bc_tables(ops, E)
+    for k, op in enumerate(ops):
+        if k >= len(entry['snaps']):
+            break
+        want = _ref_entries(ref[k][0], fs)
+        got = _norm_snapshot(entry['snaps'][k], names)
+        ename = ENTRY_NAME[op[0]]
+        d = _desc(case, entry_call=k, entry_op=op)
+        res.count('entry:' + op[0])
+        if op[0] == 'setBC-none':
+            want0 = {kk: v for kk, v in want.items()}
+            if got != want0:
+                res.violate('bc-entry-setBC-element-None-not-stored',
+                            'DiffusionModel.setBC called without element: the condition is not stored for the first independent element %s (stored under the key None)' % names[1],
+                            d, {str(kk): v for kk, v in (got or {}).items()}, {str(kk): v for kk, v in want0.items()})
+                return True
+            continue
+        if bool(entry['raised'][k]) != bool(ref[k][1]):
+            res.violate('bc-entry-%s-%s' % (ename, 'invalid-argument-accepted' if ref[k][1] else 'raised-on-valid-arguments'),
+                        'call %d (%s): ValueError %s' % (k, ename, 'expected, not raised' if ref[k][1] else 'raised for valid arguments'), d, bool(entry['raised'][k]), bool(ref[k][1]))
+            return True
+        if got != want:
+            if got is None:
+                what = 'type-and-value-dictionaries-out-of-step'
+            else:
+                sides = sorted({('left', 'right')[kk[1]] for kk in set(got) | set(want) if got.get(kk) != want.get(kk)})
+                what = '+'.join(sides) + '-table'
+            res.violate('bc-entry-%s-%s' % (ename, what),
+                        'after call %d (%s, side %s, element %s) the stored boundary-condition tables are not what was entered'
+                        % (k, ename, op[1] if op[0] not in ('setBC',) else 'both', _key_name(names, op[-1])),
+                        d, {str(kk): v for kk, v in (got or {}).items()}, {str(kk): v for kk, v in want.items()})
+            return True
+    if tables_setup is not None:
+        got = _norm_snapshot(tables_setup, names)
+        want = _ref_entries(ref[-1][0] if ref else {}, fs)
+        for e in range(E):
+            for side in range(2):
+                want.setdefault((e, side), (0, 0.0))
+        if got != want:
+            res.violate('bc-table-after-setup', 'after setup() (setupDefaults) the tables are not the entered conditions completed with flux 0 defaults',
+                        _desc(case), {str(kk): v for kk, v in (got or {}).items()}, {str(kk): v for kk, v in want.items()})
+            return True
+    return False
+
+
+def bounds_t0(res, case, d, x, rp, minC, nAll, tag, where):
+    """min <= x <= 1-min for every component (the dependent one included) at t = 0"""
+    lo, hi = minC, 1 - minC
+    E, N = x.shape
+    for e in range(E):
+        for i in range(N):
+            v = float(x[e, i])
+            if not (lo <= v <= hi):
+                res.violate('bounds-%s-%s:described-value-%s' % (tag, 'below-min' if v < lo else ('above-1-min' if v > hi else 'nan'), classify_value(rp[e][i], minC, nAll)),
+                            '%s: element %d node %d is %.6e, outside [minC, 1-minC] (described value %.6e, minComposition %g, %d elements)'
+                            % (where, e, i, v, rp[e][i], minC, nAll), d, v, [lo, hi])
+                return
+    for i in range(N):
+        dep = 1 - math.fsum(float(x[e, i]) for e in range(E))
+        if not (lo - 4 * EPS <= dep <= hi + 4 * EPS):
+            res.violate('bounds-%s-dependent-%s' % (tag, 'below-min' if dep < lo else 'above-1-min'),
+                        '%s: dependent component at node %d is %.6e, outside [minC, 1-minC]' % (where, i, dep), d, dep, [lo, hi])
+            return
+
+
 def oracle(res, case, log):
     """property predicate evaluated on the logged implementation states (independent of the Lean model)"""
     E, N, dz, spec, minC, nAll = log['E'], log['N'], log['dz'], log['spec'], case['minC'], log['nAll']
@@ -575,6 +917,9 @@ def oracle(res, case, log):
         res.near_tie_skipped += 1
         return
     first_setup = None
+    # ---- the entering calls: stored tables = specification, after every call and after setupDefaults
+    if log.get('entry') is not None:
+        entry_oracle(res, case, log['entry'], E, _flux_scale(case, mesh_dz(case)), log.get('tables_setup'))
     # ---- operations / setup
     for k, op in enumerate(log['ops']):
         d = _desc(case, op_index=k)
@@ -605,6 +950,12 @@ def oracle(res, case, log):
                 if bad: break
             if bad:
                 res.violate('setup-initial-profile', 'node (%d,%d) after the first setup is not the described profile shifted/clamped' % bad[:2], d, bad[2], bad[3])
+            # bounds at t = 0: model.x after setup() and the first recorded profile, every component
+            bounds_t0(res, case, d, op['x_setup'], rp, minC, nAll, 'after-setup', 'model.x after setup()')
+            if log.get('rec0') is not None:
+                if not np.array_equal(log['rec0'], op['x_setup']):
+                    res.violate('recorded-t0-differs-from-state', 'the profile recorded at t = 0 is not model.x after setup()', d)
+                bounds_t0(res, case, d, log['rec0'], rp, minC, nAll, 'recorded-t0', 'the first recorded profile')
         else:
             # consecutive call: setup must leave the profile alone
             if not np.array_equal(op['x_setup'], op['x_before']):
@@ -695,7 +1046,19 @@ def oracle(res, case, log):
             if abs(got - want) > 1e-9 * mag + floor:
                 res.violate('budget-step-preclip', 'element %d: iterator output mesh sum changed by %.6e, boundary fluxes give %.6e' % (e, got, want), d, got, want)
             clip_active = bool(np.any(st['xraw'][e] < lo) or np.any(st['xraw'][e] > hi))
-            if clip_active:
+            pre_oob = bool(np.any(st['xold'][e] < lo) or np.any(st['xold'][e] > hi))
+            if pre_oob:
+                # the state handed to the step was already outside the bounds (never so after a correct setup / postProcess):
+                # what the clip adds to those nodes is not boundary exchange
+                history_ok[e] = False
+                got = math.fsum(st['xnew'][e]) - s_old
+                mag = math.fsum(abs(a - b) for a, b in zip(st['xnew'][e], st['xold'][e])) + abs(want)
+                if abs(got - want) > 1e-9 * mag + floor:
+                    closed = lt == 0 and rt == 0 and lv == 0 and rv == 0
+                    res.violate(('closed-sum-changes-over-first-postProcess' if closed else 'budget-first-postProcess') if s == 0 else 'budget-step-from-out-of-bounds-state',
+                                'element %d: the step started from a state outside [minC, 1-minC]; over the postProcess the mesh sum changed by %.6e, the boundary fluxes give %.6e'
+                                % (e, got, want), d, got, want)
+            elif clip_active:
                 res.count('clip-active-steps')
                 history_ok[e] = False
             else:
@@ -712,6 +1075,16 @@ def oracle(res, case, log):
                 res.violate('fixed-node-right', 'element %d: right fixed-composition node moved' % e, d, float(st['xnew'][e, N - 1]), float(first_setup[e, N - 1]))
         if np.any(st['xnew'] < lo) or np.any(st['xnew'] > hi):
             res.violate('bounds', 'composition outside [minC, 1-minC] after postProcess', d, [float(st['xnew'].min()), float(st['xnew'].max())], [lo, hi])
+        dep = 1 - np.sum(st['xnew'], axis=0)
+        if np.any(dep < lo - 4 * EPS) or np.any(dep > hi + 4 * EPS):
+            i = int(np.argmin(dep)) if np.any(dep < lo - 4 * EPS) else int(np.argmax(dep))
+            # postProcess clips the independent components only; whether their sum stays below 1 - minC is decided by the
+            # flux consistency of the thermodynamics (sum of the number-fixed-frame fluxes -> 0 as the reference element runs out),
+            # which the stub diffusivities of this harness do not have: a violation on real thermodynamics, an observation on stubs
+            if case.get('therm') == 'pycalphad':
+                res.violate('bounds-dependent-after-step', 'dependent component (1 - sum of the independent ones) outside [minC, 1-minC] at node %d after postProcess' % i, d, float(dep[i]), [lo, hi])
+            else:
+                res.count('observation:dependent-component-outside-bounds-after-step(stub-diffusivities)')
         # continuity: the state handed to the iterator is the previous postProcess / setup output
     # ---- whole history (all solve calls): mesh sum = sum after first setup + accumulated boundary exchange
     last = log['ops'][-1]
@@ -778,6 +1151,9 @@ def compare_model(res, case, log, answer):
         if raised:
             res.disagree('setup: implementation raised, model accepts', _desc(case, op_index=k), op['status'], 'K'); return
         xs = np.array(t.flts()).reshape(E, N)
+        depm = np.array(t.flts())
+        if op['x_setup'] is not None and not np.allclose(depm, 1 - np.sum(op['x_setup'], axis=0), rtol=1e-12, atol=4 * EPS):
+            res.disagree('dependent component after setup (call %d)' % k, _desc(case, op_index=k), (1 - np.sum(op['x_setup'], axis=0)).tolist(), depm.tolist()); return
         if not np.allclose(xs, op['x_setup'], rtol=1e-12, atol=0) :
             diff = np.abs(xs - op['x_setup']); e, i = np.unravel_index(np.argmax(diff), diff.shape)
             res.disagree('x after setup (call %d, node (%d,%d))' % (k, e, i), _desc(case, op_index=k), float(op['x_setup'][e, i]), float(xs[e, i])); return
@@ -826,10 +1202,79 @@ def aux_lines(case, log, rng):
                     out.append(('vframe', line, (log['raw'][h['c']][:, j + 1], float(np.abs(J[:, j]).sum()), h['c'], j)))
             except (ValueError, FloatingPointError):
                 pass
+    if log.get('entry') is not None and log.get('tables_setup') is not None:
+        out.append(('bcops', bcops_line(case, E), (log['entry'], log['tables_setup'])))
     return out
 
 
+def bcops_line(case, E):
+    """the entering calls of the case for the model driver (values as actually passed)"""
+    fs = _flux_scale(case, mesh_dz(case)) if 'model' in case else case['fs']
+    def val(kind, v):
+        return float(v * fs) if kind == 'flux' else (float(v) if kind in ('comp', 'badtype') else 0.0)
+    T = {'flux': 'F', 'flux0': 'F', 'comp': 'C', 'badtype': 'X'}
+    ops = bcops_of(case)
+    toks = ['dif.bcops', str(E), str(E + 1), vlib.enc_bool(bool(case.get('ctor', False))), str(len(ops))]
+    for op in ops:
+        if op[0] in ('setBC', 'setBC-none'):
+            _, lk, lv, rk, rv, _, e = op
+            toks += ['B', T[lk], f2b(val(lk, lv)), T[rk], f2b(val(rk, rv)), str(-1 if op[0] == 'setBC-none' else e)]
+        else:
+            ep, sd, _, k, v, _, e = op
+            side = {'L': 'L', 'R': 'R', 'bad': 'X'}[sd]
+            if ep == 'set':
+                toks += ['S', side, T[k], f2b(val(k, v)), str(e)]
+            else:
+                toks += ['L' if ep == 'setLeft' else 'R', T[k], f2b(val(k, v)), str(e)]
+    return ' '.join(toks)
+
+
+def _read_store(t, K):
+    out = {}
+    for key in [-1] + list(range(K)):
+        for side in range(2):
+            ty = t.tok(); v = t.tok()
+            if (ty == '-') != (v == 'none'):
+                return None
+            if ty != '-':
+                out[(key, side)] = (int(ty), vlib.b2f(v) if v != 'nan' else float('nan'))
+    return out
+
+
+def compare_bcops(res, case, answer, entry, tables_setup, E):
+    t = Toks(answer)
+    d = _desc(case)
+    if not t.ok:
+        res.disagree('dif.bcops model error ' + str(t.err), d, 'ok', t.err); return
+    ops = bcops_of(case)
+    flags = [t.tok() == 'T' for _ in ops]
+    if flags != [bool(r) for r in entry['raised']]:
+        res.disagree('entering calls: which calls raise ValueError', d, entry['raised'], flags); return
+    before = _read_store(t, E + 1)
+    after = _read_store(t, E + 1)
+    rows = [[int(t.tok()), vlib.b2f(t.tok()), int(t.tok()), vlib.b2f(t.tok())] for _ in range(E)]
+    same = t.tok()
+    names = case['names']
+    impl_before = _norm_snapshot(entry['snaps'][-1], names) if entry['snaps'] else {}
+    if before != impl_before:
+        res.disagree('boundary-condition dictionaries after the entering calls', d, {str(k): v for k, v in (impl_before or {}).items()}, {str(k): v for k, v in (before or {}).items()}); return
+    if tables_setup is not None:
+        impl_after = _norm_snapshot(tables_setup, names)
+        if after != impl_after:
+            res.disagree('boundary-condition dictionaries after setupDefaults', d, {str(k): v for k, v in (impl_after or {}).items()}, {str(k): v for k, v in (after or {}).items()}); return
+        for e in range(E):
+            el = names[e + 1]
+            impl_row = [tables_setup['leftBCtype'].get(el), tables_setup['leftBC'].get(el), tables_setup['rightBCtype'].get(el), tables_setup['rightBC'].get(el)]
+            if impl_row != rows[e]:
+                res.disagree('conditions read for element %d' % e, d, impl_row, rows[e]); return
+    if same != 'T':
+        res.disagree('applyOps (fold) differs from the call-by-call model state', d, 'T', same)
+    res.count('entry-histories-vs-model')
+
+
 def compare_aux(res, case, kind, answer, ref):
+    if kind == 'bcops':
+        compare_bcops(res, case, answer, ref[0], ref[1], len(case['names']) - 1); return
     t = Toks(answer)
     if not t.ok:
         res.disagree('dif.%s model error' % kind, _desc(case), 'ok', t.err); return
@@ -931,6 +1376,108 @@ def _flush(res, batch, lines):
             compare_aux(res, c, a[0], ans[pos + 1 + q], a[2])
 
 
+# ============================================================================ entering calls alone (no thermodynamics)
+def gen_entry_case(rng):
+    ncomp = rng.choice([2, 2, 3, 3, 4])
+    E = ncomp - 1
+    names = rng.sample(SUBST, ncomp)
+    L = 10 ** rng.uniform(-5, -2)
+    bc = gen_bc(rng, E)
+    return dict(kind='bcentry', names=names, N=rng.randint(3, 12), z0=rng.choice([0.0, -L / 2]), L=L,
+                minC=rng.choice([1e-8, 1e-8, 1e-6, 1e-3]), bc=bc,
+                bcops=gen_bcops(rng, bc, E, noise_p=0.45, malformed=rng.random() < 0.25, none_key=rng.random() < 0.2),
+                ctor=rng.random() < 0.5, fs=10 ** rng.uniform(-12, -6), fseed=rng.getrandbits(32),
+                lin=[[_val(rng, 0.9 / E), _val(rng, 0.9 / E)] for _ in range(E)], via_model_setters=rng.random() < 0.5)
+
+
+def run_entry(case):
+    """entering calls on the real BoundaryConditions / DiffusionModel, then setup() and one applyBoundaryConditionsToFluxes"""
+    vlib.use_repo()
+    from kawin.diffusion.Diffusion import DiffusionModel
+    names = case['names']; E = len(names) - 1; N = case['N']
+    bc0, pending = enter_first(case, names, case['fs'])
+    m = DiffusionModel([case['z0'], case['z0'] + case['L']], N, names, ['ALPHA'], boundaryConditions=bc0)
+    m.constraints.minComposition = case['minC']
+    for e in range(E):
+        if case['via_model_setters']:
+            m.setCompositionLinear(case['lin'][e][0], case['lin'][e][1], names[e + 1])
+        else:
+            m.compositionProfile.addLinearCompositionStep(names[e + 1], case['lin'][e][0], case['lin'][e][1])
+    entry = enter_rest(pending, m, m.boundaryConditions)
+    with contextlib.redirect_stdout(io.StringIO()):
+        m.setup()
+    tables = snapshot(m.boundaryConditions)
+    raw = np.random.default_rng(case['fseed']).uniform(-1, 1, (E, N + 1)) * case['fs']
+    aft = raw.copy()
+    m.boundaryConditions.applyBoundaryConditionsToFluxes(m.elements, aft)
+    rec0 = np.array(m._recordedX[0], copy=True) if m._recordedX is not None else None
+    return dict(entry=entry, tables=tables, x=m.x.copy(), raw=raw, aft=aft, rec0=rec0, same_object=(bc0 is None or m.boundaryConditions is bc0), nAll=len(m.allElements))
+
+
+def entry_case_oracle(res, case, out):
+    names = case['names']; E = len(names) - 1; N = case['N']; minC = case['minC']
+    if entry_oracle(res, case, out['entry'], E, case['fs'], out['tables']):
+        return          # what the run does with wrongly stored tables is a consequence
+    if not out['same_object']:
+        res.violate('bc-entry-constructor-object-not-used', 'the BoundaryConditions object passed to the constructor is not the one the model uses', _desc(case))
+    ref = ref_bc_tables(case['bcops'], E)
+    spec = spec_from_tables(ref[-1][0] if ref else {}, E, case['fs'])
+    d = _desc(case)
+    x, raw, aft = out['x'], out['raw'], out['aft']
+    for e in range(E):
+        lt, lv, rt, rv = spec[e]
+        a, b = case['lin'][e]
+        wl = ref_shift_clamp(lv if lt == 1 else a, minC, out['nAll'])
+        wr = ref_shift_clamp(rv if rt == 1 else b, minC, out['nAll'])
+        if not close(x[e, 0], wl, 1e-12):
+            res.violate('comp-bc-left-initial-node' if lt == 1 else 'left-initial-node-overwritten', 'element %d: left node after setup is %.12g, expected %.12g' % (e, x[e, 0], wl), d, float(x[e, 0]), wl)
+        if not close(x[e, N - 1], wr, 1e-12):
+            res.violate('comp-bc-right-initial-node' if rt == 1 else 'right-initial-node-overwritten', 'element %d: right node after setup is %.12g, expected %.12g' % (e, x[e, N - 1], wr), d, float(x[e, N - 1]), wr)
+        want_l = lv if lt == 0 else raw[e, 1]
+        want_r = rv if rt == 0 else raw[e, N - 1]
+        if aft[e, 0] != want_l:
+            res.violate('%s-bc-left-face' % ('flux' if lt == 0 else 'comp'), 'element %d: left end face is not %s' % (e, 'the left flux value' if lt == 0 else 'the neighbouring face'), d, float(aft[e, 0]), float(want_l))
+        if aft[e, N] != want_r:
+            res.violate('%s-bc-right-face' % ('flux' if rt == 0 else 'comp'), 'element %d: right end face is not %s' % (e, 'the right flux value' if rt == 0 else 'the neighbouring face'), d, float(aft[e, N]), float(want_r))
+        if not np.array_equal(aft[e, 1:N], raw[e, 1:N]):
+            res.violate('interior-face-modified', 'element %d: boundary conditions changed an interior face' % e, d)
+
+
+def one_entry_case(ctx, case):
+    res = Result()
+    out = run_entry(case)
+    ops = case['bcops']
+    res.case(('bcentry', tuple(case['names']), case['fseed']), len(ops) > 0)
+    res.count('entry-cases')
+    res.count('entry-object:' + ('constructor-argument' if case['ctor'] else 'made-by-the-model'))
+    if any(ref[1] for ref in ref_bc_tables(ops, len(case['names']) - 1)):
+        res.count('entry-cases-with-invalid-calls')
+    if any(op[-1] == len(case['names']) - 1 for op in ops):
+        res.count('entry-cases-with-foreign-name')
+    entry_case_oracle(res, case, out)
+    return res, out
+
+
+def entry_cases(ctx, res, n, oracle_only=False):
+    batch, lines = [], []
+    for _ in range(n):
+        case = gen_entry_case(ctx.rng)
+        ok, val = vlib.guarded(res, 'bc-entry', _desc(case), one_entry_case, ctx, case)
+        if not ok:
+            res.count('case-raised'); continue
+        local, out = val
+        res.merge(local)
+        del res.samples[3:]
+        if not oracle_only:
+            batch.append((case, out)); lines.append(bcops_line(case, len(case['names']) - 1))
+    if batch:
+        def fl():
+            ans = vlib.run_driver(PROP, lines)
+            for (c, o), a in zip(batch, ans):
+                compare_bcops(res, c, a, o['entry'], o['tables'], len(c['names']) - 1)
+        vlib.guarded(res, 'driver-replay', None, fl)
+
+
 _REAL = {}
 
 
@@ -996,11 +1543,15 @@ def corr(ctx, ncases=None, oracle_only=False):
     res = Result()
     res.rule = ('random diffusion couples on the real SinglePhaseModel/HomogenizationModel with stub thermodynamics: model kind x 2-4 components x 3-200 nodes x '
                 'profile builders x per-element/side BC (default, flux 0, flux value, composition) x temperature kind x iterator x 1-5 solve calls (+ bare setup calls) x 1-8 steps each; '
-                'non-trivial = at least one accepted step on a valid profile; distinct = (model, iterator, N, E, stub kind, stub seed)')
+                'non-trivial = at least one accepted step on a valid profile; distinct = (model, iterator, N, E, stub kind, stub seed). '
+                'Profile values also drawn from the regimes relative to minComposition (0, below min, min, inside (min,(n+1)min), its ends, just above, near 1-min, 1) for minComposition 1e-10..1e-3; '
+                'boundary conditions entered through histories of setBoundaryCondition (constants / strings), setLeft/RightBoundaryCondition, DiffusionModel.setBC, on an object made by the model or passed to the constructor, '
+                'with overwritten earlier calls and names that are not elements; + histories of entering calls alone (incl. invalid side / type strings, setBC without element) on a bare DiffusionModel')
     res.monitored = list(MONITORED)
     n = ncases or ctx.n(420, 9000)
     cases = [gen_case(ctx.rng, ctx.thorough) for _ in range(n)]
     process(ctx, res, cases, oracle_only or not ctx.driver_ok)
+    entry_cases(ctx, res, ctx.n(250, 4000) if ncases is None else max(100, ncases // 2), oracle_only or not ctx.driver_ok)
     if ctx.thorough and not oracle_only:
         try:
             real_db_cases(ctx, res, oracle_only or not ctx.driver_ok)
@@ -1023,10 +1574,17 @@ def replay(ctx, entry):
         c = c['case']                      # violation made by vlib.guarded: {case, raised_at}
     if 'real_db' in c:
         r = Result(); ctx.driver_ok = False; real_db_cases(ctx, r, oracle_only=True)
-    else:
-        keys = ['model', 'names', 'N', 'z0', 'L', 'minC', 'profile', 'pkind', 'bc', 'bcapi', 'scheme', 'ops', 'temp', 'therm', 'tseed',
-                'scale', 'maxDtFrac', 'record', 'hfunc', 'heps', 'nphases', 'hpost', 'mobless']
+    elif c.get('kind') == 'bcentry':
+        keys = ['kind', 'names', 'N', 'z0', 'L', 'minC', 'bc', 'bcops', 'ctor', 'fs', 'fseed', 'lin', 'via_model_setters']
         case = {k: c[k] for k in keys}
+        r = Result()
+        ok, val = vlib.guarded(r, 'bc-entry', _desc(case), one_entry_case, ctx, case)
+        if ok:
+            r.merge(val[0])
+    else:
+        keys = ['model', 'names', 'N', 'z0', 'L', 'minC', 'profile', 'pkind', 'bc', 'bcapi', 'bcops', 'ctor', 'scheme', 'ops', 'temp', 'therm', 'tseed',
+                'scale', 'maxDtFrac', 'record', 'hfunc', 'heps', 'nphases', 'hpost', 'mobless']
+        case = {k: c[k] for k in keys if k in c}
         r = Result()
         ctx.driver_ok = False
         process(ctx, r, [case], oracle_only=True)
